@@ -302,6 +302,13 @@ namespace AIToolbox::POMDP {
 
     template <IsGenerativeModel M>
     size_t POMCP<M>::sampleAction(const size_t a, const size_t o, const unsigned horizon) {
+        // No tree to reuse (no previous call, or no such action node): start from scratch.
+        if ( a >= graph_.children.size() ) {
+            AI_LOGGER(AI_SEVERITY_WARNING, "No search tree for action " << a << ", restarting with uniform belief..");
+            auto b = Belief(S); b.fill(1.0/S);
+            return sampleAction(b, horizon);
+        }
+
         const auto & obs = graph_.children[a].children;
 
         auto it = obs.find(o);
